@@ -174,6 +174,7 @@ PSY_C_API inline bool isIntegerTypeKind(const BasicTypeKind& basicTyK)
 PSY_C_API inline bool isRealTypeKind(const BasicTypeKind& basicTyK)
 {
     switch (basicTyK) {
+        case BasicTypeKind::Char:
         case BasicTypeKind::Char_U:
         case BasicTypeKind::Char_S:
         case BasicTypeKind::Short_U:
